@@ -211,7 +211,15 @@ class Shim:
         mf = self.plan.get('midfs')         # {'after': k, 'ops': [...]}: someone else changes the file system right after the k-th mutation
         if mf is not None and self.nmut == mf['after'] and not getattr(self, '_midfs_done', False):
             self._midfs_done = True
-            for op in mf.get('ops') or []:
+            self._others(mf.get('ops') or [])
+        ik = self.plan.get('interrupt')
+        if ik is not None and self.nmut == ik:
+            raise KeyboardInterrupt()
+
+    def _others(self, ops):
+        """what somebody else does to the file system while the command runs"""
+        if True:
+            for op in ops:
                 try:
                     if op[0] == 'chmod':
                         self.orig['os.chmod'](op[1], op[2])
@@ -220,14 +228,16 @@ class Shim:
                             self.orig['os.unlink'](op[1])
                         except OSError:
                             shutil.rmtree(op[1], ignore_errors=True)
+                    elif op[0] == 'mkdir':
+                        self.orig['os.makedirs'](op[1], op[2] if len(op) > 2 else 0o700, exist_ok=True)
+                    elif op[0] == 'write':            # somebody else creates a file (another trash-put finishing, a daemon re-opening its log)
+                        with self.orig['bopen'](op[1], 'wb') as f:
+                            f.write(op[2].encode('utf-8', 'surrogateescape'))
                     elif op[0] == 'to_link':          # replace a directory by a symbolic link to where it was moved
                         self.orig['os.rename'](op[1], op[2])
                         self.orig['os.symlink'](op[2], op[1])
                 except OSError:
                     pass
-        ik = self.plan.get('interrupt')
-        if ik is not None and self.nmut == ik:
-            raise KeyboardInterrupt()
 
     def lib(self, name, args, fn):
         """record + possibly fault a library-boundary op issued by a trashcli frame"""
@@ -264,6 +274,9 @@ class Shim:
                         raise OSError(spec['errno'], os.strerror(spec['errno']))
             r = fn()
             rec[2] = ['ok', r]
+            ml = self.plan.get('midlib')        # {'after': k, 'ops': [...]}: ... right after the k-th library-boundary operation (probes included)
+            if ml is not None and k == ml['after']:
+                self._others(ml.get('ops') or [])
             return r
         except OSError as e:
             rec[2] = ['err', 'ShutilError' if isinstance(e, shutil.Error) else 'OSError', e.errno]
@@ -608,6 +621,9 @@ def _child(root, scn, step, resfile, outf, errf):
             os.environ.pop(k, None)
         else:
             os.environ[k] = v
+    if 'TZ' in os.environ:
+        import time as _time
+        _time.tzset()                 # a POSIX TZ string needs no zone files (there are none inside the sandbox root)
     shim = Shim(step, scn.get('mounts') or [], scn.get('uid', 0))
     cmd = step['cmd']
     sys.argv = [PROG[cmd]] + list(step.get('argv') or [])
@@ -621,7 +637,6 @@ def _child(root, scn, step, resfile, outf, errf):
     if now:
         nowv = _dt.datetime(*now)
         import trashcli.put.clock as pc
-        pc.RealClock.now = lambda self: (shim.trace.append(['now', [], ['ok', list(now)]]), nowv)[1]
         import trashcli.empty.main as em
 
         class _DT(_dt.datetime):
@@ -629,7 +644,27 @@ def _child(root, scn, step, resfile, outf, errf):
             def now(cls, tz=None):
                 shim.trace.append(['now', [], ['ok', list(now)]])
                 return nowv
+
+            @classmethod
+            def today(cls):
+                return cls.now()
         em.datetime = _DT
+
+        # trash-put's clock is datetime.datetime.now() (trashcli/put/clock.py): the module's view of `datetime` is replaced, not the
+        # method that calls it; and the epoch clock agrees with it (time.time() is the instant whose local time, under the scenario's TZ,
+        # is `now`), so that any other way of reading the time of day is held against the same value
+        class _DTModule(object):
+            datetime = _DT
+
+            def __getattr__(self, name):
+                return getattr(_dt, name)
+        pc.datetime = _DTModule()
+        import time as _time
+        try:
+            _epoch = _time.mktime(nowv.timetuple()) + nowv.microsecond / 1e6
+            _time.time = lambda: _epoch
+        except (OverflowError, ValueError):
+            pass
     # mounts seen by trash-restore (psutil) ; TRASH_VOLUMES is honoured by list/empty/rm themselves
     import psutil
 
@@ -783,7 +818,7 @@ def execute(scn, snap_each=True, keep=False):
         outs = []
         for step in scn['steps']:
             if step.get('cmd') == 'fs':
-                # a change made by "someone else" between two commands: [['rmtree', path] | ['mkdir', path] | ['write', path, text]]
+                # a change made by "someone else" between two commands: [['rmtree', path] | ['mkdir', path] | ['chmod', path, mode] | ['write', path, text]]
                 for op in step.get('ops') or []:
                     rp = os.fsencode(_real(root, op[1]))
                     try:
@@ -791,6 +826,8 @@ def execute(scn, snap_each=True, keep=False):
                             shutil.rmtree(rp) if os.path.isdir(rp) and not os.path.islink(rp) else os.unlink(rp)
                         elif op[0] == 'mkdir':
                             os.makedirs(rp, exist_ok=True)
+                        elif op[0] == 'chmod':
+                            os.chmod(rp, op[2])
                         elif op[0] == 'write':
                             os.makedirs(os.path.dirname(rp), exist_ok=True)
                             with open(rp, 'wb') as f:
